@@ -117,9 +117,20 @@ pub fn record(args: &Args) {
                     }
                 }
                 if mode != "c38" {
-                    let m = rng.gen_range(0..4);
-                    for _ in 0..m {
-                        try_prune(&world, &mut rng, n, k, true).await;
+                    if rng.gen_bool(0.3) {
+                        // the pruner has done all its work: nothing outside the sampling window is left
+                        for (lo, hi) in &segs {
+                            for h in *lo..=*hi {
+                                if n - h >= k {
+                                    world.store.remove_height(h).await.unwrap();
+                                }
+                            }
+                        }
+                    } else {
+                        let m = rng.gen_range(0..4);
+                        for _ in 0..m {
+                            try_prune(&world, &mut rng, n, k, true).await;
+                        }
                     }
                 }
             }
@@ -131,6 +142,8 @@ pub fn record(args: &Args) {
             let mut sub = events.subscribe();
             let syncer = VSyncer::start(&p2p, world.store.clone(), &events, batch, wsamp, Duration::from_secs(100_000_000)).unwrap();
             let mut connected = false;
+            let mut plain_peer = false; // an additional untrusted peer is connected
+            let mut trusted_here = false;
             let mut has_sub = false;
             let mut init_inflight = false; // head answered, FetchingHeadHeaderFinished not yet seen
             let mut pending: VecDeque<(u64, u64, Responder)> = VecDeque::new();
@@ -211,12 +224,15 @@ pub fn record(args: &Args) {
                         0 | 1 if !connected => {
                             handle.announce_trusted_peer_connected();
                             connected = true;
+                            trusted_here = true;
                             settle().await;
                             tw.emit(json!({"name": "connect", "st": world.snapshot(Some(&syncer)).await}));
                         }
                         2 if connected && rng.gen_bool(0.3) => {
                             handle.announce_all_peers_disconnected();
                             connected = false;
+                            plain_peer = false;
+                            trusted_here = false;
                             has_sub = false;
                             pending.clear();
                             cur_batch = None;
@@ -247,10 +263,25 @@ pub fn record(args: &Args) {
                                 tw.emit(json!({"name": "mark", "h": h, "st": world.snapshot(Some(&syncer)).await}));
                             }
                         }
+                        8 if connected && trusted_here && !plain_peer => {
+                            w::set_peer_counts(&handle, 2, 1);
+                            plain_peer = true;
+                            settle().await;
+                            tw.emit(json!({"name": "plainjoin", "st": world.snapshot(Some(&syncer)).await}));
+                        }
+                        9 if connected && trusted_here && plain_peer => {
+                            // only the trusted peer leaves: the syncer must keep fetching
+                            w::set_peer_counts(&handle, 1, 0);
+                            trusted_here = false;
+                            plain_peer = false;
+                            settle().await;
+                            tw.emit(json!({"name": "trustedleave", "st": world.snapshot(Some(&syncer)).await}));
+                        }
                         _ => {
                             if !connected {
                                 handle.announce_trusted_peer_connected();
                                 connected = true;
+                                trusted_here = true;
                                 settle().await;
                                 tw.emit(json!({"name": "connect", "st": world.snapshot(Some(&syncer)).await}));
                             }
@@ -260,6 +291,7 @@ pub fn record(args: &Args) {
                     if !connected {
                         handle.announce_trusted_peer_connected();
                         connected = true;
+                        trusted_here = true;
                         settle().await;
                         tw.emit(json!({"name": "connect", "st": world.snapshot(Some(&syncer)).await}));
                     } else if !got_cmd {
@@ -353,7 +385,9 @@ async fn drain_events(
                 *cur_batch = Some((from_height, to_height));
                 *failed_seen = false;
                 *n_fetch += 1;
-                *cur_kind = if !adversarial {
+                *cur_kind = if mode == "aging" {
+                    Kind::Fail
+                } else if !adversarial {
                     Kind::Ok
                 } else {
                     match rng.gen_range(0..10) {
@@ -393,4 +427,126 @@ async fn drain_events(
             _ => {}
         }
     }
+}
+
+/// C25 with the real clock moving: headers `delta` seconds apart, a store whose tail is just inside
+/// the sampling window, every batch below it fails; while real time passes the tail leaves the
+/// window and the syncer must stop asking.  The clock is sampled as now = floor(x + 0.5),
+/// x = (real now - base) / delta, which makes `now - h < k` exactly the code's window test; the driver
+/// only acts while the fractional part is away from the rounding point.
+pub fn record_aging(args: &Args) {
+    let seed = args.opt_u64("seed", 1);
+    let runs = args.opt_u64("runs", 2);
+    let delta = args.opt_u64("delta", 2);
+    let n = 12u64;
+    let k = 4u64;
+    let batch = 2u64;
+    let mut tw = TraceWriter::create(args.opt("out").expect("--out"));
+    let mut sum = Summary::new("syncer-aging");
+    let mut rng = StdRng::seed_from_u64(seed ^ 0xa9e);
+    h_common::QUIET_ALL.store(true, std::sync::atomic::Ordering::Relaxed);
+    let rt = tokio::runtime::Builder::new_current_thread().enable_all().start_paused(true).build().unwrap();
+    rt.block_on(async {
+        for run in 0..runs {
+            let t0 = std::time::SystemTime::now();
+            let now = Time::now();
+            let base = (now - Duration::from_secs(n * delta)).unwrap();
+            let base_sys = t0 - Duration::from_secs(n * delta);
+            let clock = |margin: bool| -> u64 {
+                loop {
+                    let x = std::time::SystemTime::now().duration_since(base_sys).unwrap().as_secs_f64() / delta as f64 + 0.5;
+                    let frac = x - x.floor();
+                    if !margin || (0.15..0.85).contains(&frac) {
+                        return x.floor() as u64;
+                    }
+                    std::thread::sleep(Duration::from_millis(50));
+                }
+            };
+            let mut ga = ExtendedHeaderGenerator::new();
+            ga.set_time(base, Duration::from_secs(delta));
+            let a = ga.next_many_empty(n);
+            let world = World { a, f: vec![], store: Arc::new(InMemoryStore::new()) };
+            let wsamp = Duration::from_millis(((k - 1) * delta) * 1000 + delta * 500);
+            let mut cur = clock(true);
+            tw.emit(json!({"name": "reset", "run": run, "now": cur}));
+            // the tail of the stored range is the oldest header still inside the window
+            let tail = n - (k - 1);
+            world.store.insert((tail..=n).map(|h| world.a(h)).collect::<Vec<_>>()).await.unwrap();
+            tw.emit(json!({"name": "prefill", "netHead": n, "st": world.snapshot(None).await}));
+            let (p2p, mut handle) = w::mocked_p2p();
+            let events = Events::new();
+            let mut sub = events.subscribe();
+            let syncer = VSyncer::start(&p2p, world.store.clone(), &events, batch, wsamp, Duration::from_secs(100_000_000)).unwrap();
+            handle.announce_trusted_peer_connected();
+            settle().await;
+            tw.emit(json!({"name": "connect", "st": world.snapshot(Some(&syncer)).await}));
+            let mut pending: VecDeque<(u64, u64, Responder)> = VecDeque::new();
+            let (mut cur_batch, mut cur_kind, mut failed_seen, mut n_fetch, mut fatal, mut inflight) = (None, Kind::Fail, false, 0u64, false, false);
+            let mut idle = 0;
+            let mut fetches_after_aging = 0u64;
+            for _step in 0..400 {
+                // let virtual timers run (try_init waits 1 s of virtual time); the worker reacts to the
+                // previous answer here, i.e. at the real instant that answer was sent
+                tokio::time::sleep(Duration::from_millis(300)).await;
+                let before = n_fetch;
+                drain_events(&mut sub, &world, &syncer, &mut tw, &mut cur_batch, &mut cur_kind, &mut failed_seen,
+                             &mut n_fetch, &mut fatal, &mut rng, true, "aging", &mut inflight).await;
+                if n_fetch > before && cur - tail >= k {
+                    fetches_after_aging += 1;
+                }
+                let mut got = false;
+                while let Some(cmd) = w::try_recv_cmd(&mut handle) {
+                    got = true;
+                    if let MockCmd::HeaderEx { request, respond_to } = cmd {
+                        use celestia_proto::p2p::pb::header_request::Data;
+                        match request.data {
+                            Some(Data::Origin(0)) => {
+                                let _ = respond_to.send(Ok(vec![world.a(n)]));
+                            }
+                            Some(Data::Origin(h)) => pending.push_back((h, request.amount, respond_to)),
+                            _ => {}
+                        }
+                    }
+                }
+                if let Some((_h, _amt, tx)) = pending.pop_front() {
+                    got = true;
+                    // let real time pass, then read the clock (away from a rounding point) and only then
+                    // send the failure: the worker reacts within milliseconds, under that same clock value
+                    std::thread::sleep(Duration::from_millis(400 + rng.gen_range(0..300)));
+                    let c2 = clock(true);
+                    if c2 != cur {
+                        cur = c2;
+                        tw.emit(json!({"name": "tick", "now": cur}));
+                    }
+                    let _ = tx.send(Err(w::header_ex_error("timeout")));
+                } else if idle > 3 {
+                    std::thread::sleep(Duration::from_millis(300));
+                    let c2 = clock(true);
+                    if c2 != cur {
+                        cur = c2;
+                        tw.emit(json!({"name": "tick", "now": cur}));
+                    }
+                }
+                if got { idle = 0 } else { idle += 1 }
+                if idle > 12 && cur - tail >= k + 1 {
+                    break;
+                }
+                if fatal {
+                    break;
+                }
+            }
+            settle().await;
+            drain_events(&mut sub, &world, &syncer, &mut tw, &mut cur_batch, &mut cur_kind, &mut failed_seen,
+                         &mut n_fetch, &mut fatal, &mut rng, true, "aging", &mut inflight).await;
+            syncer.stop();
+            syncer.join().await;
+            for p in ["C25"] {
+                sum.case(p, Some(format!("aging/{run}")), || json!({"mode": "aging", "delta_s": delta, "fetches": n_fetch,
+                         "fetches_after_the_tail_left_the_window": fetches_after_aging}));
+            }
+        }
+    });
+    let nev = tw.finish();
+    sum.set("events", json!(nev));
+    sum.write(args.opt("summary").unwrap_or("/dev/stdout"));
 }
